@@ -4,6 +4,7 @@ from __future__ import annotations
 import ast
 
 from ..cfg import iter_own
+from ..dataflow import ReachingDefs
 from ..loader import AnalysisError, ClassInfo, FuncInfo, dotted, walk_own
 from .c08 import TaskAnchors, handle_isolation, runner_rules
 from .common import Anchors, call_name, names_in, self_attr
@@ -94,11 +95,13 @@ def run(ctx) -> None:
             cps = [r for i in btw for r in a.node_checkpoints(f, cfg, cfg.nodes[i])]
             rep.check("C09.R2", not cps, f, adds[0].ast, "no checkpoint between recording the handle and spawning", "a checkpoint separates recording the handle from spawning the task")
         # the added object is the handle passed to the wrapper
-        added = [m.node.args[0] for n, m in a.func_mutations(f) if m.path == ("self", set_attr) and m.kind in ("call:add", "call:append") and m.node.args]
-        hv = ast.unparse(added[0]) if added else ""
-        rep.check("C09.R2", hv in [ast.unparse(x) for x in sp.args], f, sp, "the recorded handle is the one given to the task", "the recorded handle is not the one the task uses")
-        rets = [n for n in walk_own(f.node) if isinstance(n, ast.Return) and n.value is not None]
-        rep.check("C09.R2", all(ast.unparse(r.value) == hv for r in rets) and bool(rets), f, rets[0] if rets else f.node, "the same handle is returned to the caller", "the returned handle is not the recorded one")
+        rd = ReachingDefs(a, f)
+        added = [(n, m.node.args[0]) for n, m in a.func_mutations(f) if m.path == ("self", set_attr) and m.kind in ("call:add", "call:append") and m.node.args]
+        hv = rd.text(added[0][0].id, added[0][1]) if added else ""
+        spn_id = spn[0].id if spn else cfg.entry
+        rep.check("C09.R2", hv in [rd.text(spn_id, x) for x in sp.args], f, sp, "the recorded handle is the one given to the task", "the recorded handle is not the one the task uses")
+        rets = [n for n in cfg.live_nodes() if n.kind == "stmt" and isinstance(n.ast, ast.Return) and n.ast.value is not None]
+        rep.check("C09.R2", all(rd.text(r.id, r.ast.value) == hv for r in rets) and bool(rets), f, rets[0].ast if rets else f.node, "the same handle is returned to the caller", "the returned handle is not the recorded one")
     # the only removal: in a finally covering the whole wrapper
     wcfg = a.cfg(wrapper)
     removals = [(n, m) for n, m in a.func_mutations(wrapper) if m.path == ("self", set_attr) and m.kind in ("call:remove", "call:discard")]
@@ -147,6 +150,11 @@ def run(ctx) -> None:
         rep.violate("C09.R4", sbtf, sbtf.node, "the factory is not started as a service task")
     else:
         act = next((k.value for k in sst_call.keywords if k.arg == "teardown_action"), None)
+        if act is not None:
+            brd = ReachingDefs(a, sbtf)
+            bn = a.cfg(sbtf).nodes_containing(sst_call)
+            if bn:
+                act = brd.resolve(bn[0].id, act)
         waits = [n for n in walk_own(body.node) if isinstance(n, ast.Await) and isinstance(n.value, ast.Call) and call_name(n.value) == "wait"]
         ev_attr = self_attr(waits[0].value.func.value) if waits else None
         ok = isinstance(act, ast.Attribute) and act.attr == "set" and isinstance(act.value, ast.Attribute) and act.value.attr == ev_attr
@@ -163,7 +171,12 @@ def run(ctx) -> None:
         rep.check("C09.R4", inside, body, tgw[0] if tgw else body.node, "the body awaits the release event inside `async with create_task_group()`: leaving it joins every running task", "the release wait is not inside the factory's task group block: teardown does not wait for running tasks")
         if tgw:
             asv = tgw[0].items[0].optional_vars
-            rep.check("C09.R4", asv is not None and ast.unparse(asv) == ast.unparse(sp1.func.value), body, tgw[0], "the joined task group is the one the tasks are spawned on", "tasks are spawned on a different task group than the one the factory joins")
+            same_tg = asv is not None and ast.unparse(asv) == ast.unparse(sp1.func.value)
+            if asv is not None and not same_tg and isinstance(asv, ast.Name):
+                # async with create_task_group() as tg: self._task_group = tg
+                first = tgw[0].body[0] if tgw[0].body else None
+                same_tg = isinstance(first, ast.Assign) and isinstance(first.value, ast.Name) and first.value.id == asv.id and any(ast.unparse(t) == ast.unparse(sp1.func.value) for t in first.targets)
+            rep.check("C09.R4", bool(same_tg), body, tgw[0], "the joined task group is the one the tasks are spawned on", "tasks are spawned on a different task group than the one the factory joins")
         started = [c for c in walk_own(body.node) if isinstance(c, ast.Call) and call_name(c) == "started"]
         rep.check("C09.R4", bool(started) and bool(tgw) and any(x is started[0] for x in ast.walk(tgw[0])), body, started[0] if started else body.node, "the factory reports started only once its task group exists", "start_background_task_factory can return before the factory's task group exists")
     cancels = [c for f in TF.methods.values() for c in walk_own(f.node) if isinstance(c, ast.Call) and call_name(c) == "cancel"]
